@@ -1388,7 +1388,7 @@ def c09(run):
 def c16(run):
     run.rule = ("L1: Chain.tla IdPreserved (every derived token reports the identifier given at Build) and LookupExact (lookup verifies "
                 "against exactly the key registered under the token's identifier, or the default when it has none) over all honest histories "
-                "with identifiers {absent, 7, 2^32-1, 0} and five key maps (hit, right key only under another id, miss with default, miss "
+                "with identifiers {absent, 7, 2^32-1, 0} and six key maps (hit, right key only under another id, miss with default, miss "
                 "without default, default wrong); refuted for the pinned tree's Append/Seal (identifier dropped). L2: histories replayed, "
                 "RootKeyID() and the outcome class (ok / ErrNoPublicKeyAvailable / signature error) of every lookup compared.")
     run.assumptions = CHAIN_ASSUME
